@@ -17,7 +17,7 @@ RULE = ("cases = generated plotfiles (odd/even field counts incl. 1, with/withou
         "species, or colliding unknown names")
 ASSUMPTIONS = ["field names hold no blanks (so the printed tables can be tokenised)",
                "generator trusted; min/max tables hold no NaN"]
-REQUIRED_OBS = {"menu_runs": 60, "minmax_tables": 20, "odd_counts": 4, "no_species": 3,
+REQUIRED_OBS = {"menu_views_judged": 60, "menu_runs": 60, "minmax_tables": 20, "odd_counts": 4, "no_species": 3,
                 "colliding_names": 3, "minuterie": 8, "marinate": 5, "subprocess_runs": 1}
 TIMEOUT = {"quick": 300, "thorough": 1500}
 
@@ -157,7 +157,8 @@ def run_case(case, work, rec):
             rows, rest = boxed(out, "Fields found in file:")
             toks = " ".join(rows).split() if rows is not None else None
             if toks is None:
-                probs.append("no 'Fields found in file' box")
+                rec.undecided("menu default view not recognised (output layout changed?)")
+                continue
             else:
                 want = sorted(set(reps))
                 if sorted(toks) != want:
@@ -175,7 +176,8 @@ def run_case(case, work, rec):
             rec.count("minmax_tables")
             rows, _ = boxed(out.split("Fields' Mins and Maxs:")[-1], "Units") if "Fields' Mins and Maxs:" in out else (None, None)
             if rows is None:
-                probs.append("no min/max table")
+                rec.undecided("menu min/max table not recognised (output layout changed?)")
+                continue
             else:
                 got = {}
                 dup = []
@@ -214,7 +216,8 @@ def run_case(case, work, rec):
         elif od == "description":
             rows, _ = boxed(out.split("Fields found in file:")[-1], "Description") if "Fields found in file:" in out else (None, None)
             if rows is None:
-                probs.append("no description table")
+                rec.undecided("menu description table not recognised (output layout changed?)")
+                continue
             else:
                 got = [row.split(" : ")[0].strip() for row in rows if " : " in row]
                 if sorted(got) != sorted(set(reps)):
@@ -222,6 +225,7 @@ def run_case(case, work, rec):
         elif od == "has_var":
             if f"'{reps[0]}' found" not in out or "'not_there' not found" not in out:
                 probs.append(f"search results wrong: {out.strip()[:200]}")
+        rec.count("menu_views_judged")
         if probs:
             rec.violation(f"menu output does not report the header ({probs[0][:160]}): {descr}", key=key,
                           witness={"options": opts, "names": names, "differences": probs[:4]})
